@@ -231,6 +231,48 @@ pub fn satisfies(exp: &Exp, obs: Obs, tol: f64, null_as_zero: bool) -> Result<f6
     }
 }
 
+/// A change of unit (Laws1.tla / Laws2.tla): the series is measured in some unit u, the statistic
+/// is homogeneous of degree `deg`, so the expectation is multiplied by `factor` = u^deg.
+/// `floor` is the magnitude the statistic's terms have in that unit (u^deg * maxabs^deg): a
+/// value that is zero in exact arithmetic comes out as a rounding residue relative to it.
+#[derive(Clone, Copy, Debug)]
+pub struct Unit {
+    pub factor: f64,
+    pub floor: f64,
+}
+/// relative tolerance of a comparison in another unit: these runs look for magnitude-dependent
+/// failures (overflow, absorption, absolute thresholds), not for the last digits
+pub const UNIT_TOL: f64 = 1e-6;
+
+pub fn satisfies_unit(exp: &Exp, obs: Obs, un: Unit, null_as_zero: bool) -> Result<f64, String> {
+    let fail = |want: Option<f64>| Err(format!("got {obs}, want {exp:?} x {:e}{}", un.factor, want.map(|w| format!(" = {w:e}")).unwrap_or_default()));
+    match exp {
+        Exp::Any => Ok(0.0),
+        Exp::Set(alts) => {
+            for a in alts {
+                if let Ok(d) = satisfies_unit(a, obs, un, null_as_zero) {
+                    return Ok(d);
+                }
+            }
+            fail(None)
+        },
+        Exp::Null => match obs {
+            Obs::Null => Ok(0.0),
+            Obs::I(0) if null_as_zero => Ok(0.0),
+            _ => fail(None),
+        },
+        _ => {
+            let want = exp.value().unwrap() * un.factor;
+            let slack = UNIT_TOL * want.abs().max(un.floor);
+            match obs {
+                Obs::F(g) if (g - want).abs() <= slack => Ok(0.0),
+                Obs::I(g) if (g as f64 - want).abs() <= slack.max(1.0) => Ok(0.0),
+                _ => fail(Some(want)),
+            }
+        },
+    }
+}
+
 pub fn check_elem<O: OutElem>(exp: &Exp, got: &O) -> Result<f64, String> {
     satisfies(exp, got.obs(), O::TOL, O::NULL_AS_ZERO)
 }
@@ -241,6 +283,10 @@ pub trait InElem: Clone + 'static {
     const NAME: &'static str;
     const HAS_NULL: bool;
     fn enc(v: i64) -> Self;
+    /// the specification value measured in the unit `u` (Laws1.tla): v * u
+    fn enc_unit(v: i64, u: f64) -> Self;
+    /// can the type hold |v| * u for every |v| <= maxabs ?
+    fn fits(maxabs: i64, u: f64) -> bool;
 }
 impl InElem for f64 {
     const NAME: &'static str = "f64";
@@ -248,12 +294,25 @@ impl InElem for f64 {
     fn enc(v: i64) -> Self {
         if v == NULL { f64::NAN } else { v as f64 }
     }
+    fn enc_unit(v: i64, u: f64) -> Self {
+        if v == NULL { f64::NAN } else { v as f64 * u }
+    }
+    fn fits(_: i64, _: f64) -> bool {
+        true
+    }
 }
 impl InElem for f32 {
     const NAME: &'static str = "f32";
     const HAS_NULL: bool = true;
     fn enc(v: i64) -> Self {
         if v == NULL { f32::NAN } else { v as f32 }
+    }
+    fn enc_unit(v: i64, u: f64) -> Self {
+        if v == NULL { f32::NAN } else { (v as f64 * u) as f32 }
+    }
+    fn fits(maxabs: i64, u: f64) -> bool {
+        // the product must be exact in f32, or the input itself would carry a rounding error
+        (0..=maxabs).all(|v| ((v as f64 * u) as f32) as f64 == v as f64 * u)
     }
 }
 macro_rules! int_in {
@@ -265,11 +324,20 @@ macro_rules! int_in {
                 assert!(v != NULL, "integer element types cannot hold a null");
                 v as $t
             }
+            fn enc_unit(v: i64, u: f64) -> Self {
+                assert!(v != NULL, "integer element types cannot hold a null");
+                (v as i128 * u as i128) as $t
+            }
+            fn fits(maxabs: i64, u: f64) -> bool {
+                u == u.trunc() && (maxabs as i128 * u as i128) <= <$t>::MAX as i128
+            }
         }
         impl InElem for Option<$t> {
             const NAME: &'static str = concat!("Option<", stringify!($t), ">");
             const HAS_NULL: bool = true;
             fn enc(v: i64) -> Self { if v == NULL { None } else { Some(v as $t) } }
+            fn enc_unit(v: i64, u: f64) -> Self { if v == NULL { None } else { Some((v as i128 * u as i128) as $t) } }
+            fn fits(maxabs: i64, u: f64) -> bool { <$t as InElem>::fits(maxabs, u) }
         }
     )*};
 }
@@ -280,6 +348,12 @@ impl InElem for Option<f64> {
     fn enc(v: i64) -> Self {
         if v == NULL { None } else { Some(v as f64) }
     }
+    fn enc_unit(v: i64, u: f64) -> Self {
+        if v == NULL { None } else { Some(v as f64 * u) }
+    }
+    fn fits(_: i64, _: f64) -> bool {
+        true
+    }
 }
 impl InElem for Option<f32> {
     const NAME: &'static str = "Option<f32>";
@@ -287,10 +361,22 @@ impl InElem for Option<f32> {
     fn enc(v: i64) -> Self {
         if v == NULL { None } else { Some(v as f32) }
     }
+    fn enc_unit(v: i64, u: f64) -> Self {
+        if v == NULL { None } else { Some((v as f64 * u) as f32) }
+    }
+    fn fits(maxabs: i64, u: f64) -> bool {
+        <f32 as InElem>::fits(maxabs, u)
+    }
 }
 
 pub fn enc_vec<T: InElem>(xs: &[i64]) -> Vec<T> {
     xs.iter().map(|&v| T::enc(v)).collect()
+}
+pub fn enc_vec_unit<T: InElem>(xs: &[i64], u: f64) -> Vec<T> {
+    xs.iter().map(|&v| T::enc_unit(v, u)).collect()
+}
+pub fn max_abs(xs: &[i64]) -> i64 {
+    xs.iter().filter(|&&v| v != NULL).map(|v| v.abs()).fold(0, |a, b| if b > a { b } else { a })
 }
 pub fn has_null(xs: &[i64]) -> bool {
     xs.iter().any(|&v| v == NULL)
